@@ -99,9 +99,13 @@ func (w *c07World) shared() string {
 	b.WriteString(core.Snapshot(w.docA))
 	b.WriteString("|")
 	b.WriteString(core.Snapshot(w.docB))
-	for _, g := range verifrt.Globals {
-		b.WriteString("|" + g.Name + "=")
-		b.WriteString(core.DeepHash(g.Ptr))
+	if len(verifrt.UsesSync) == 0 {
+		// with synchronisation primitives in the library, package-level state may legitimately change under a lock
+		// (a cache, a pool): it is then judged by outcomes and by the race-detector pass, not by this hash
+		for _, g := range verifrt.Globals {
+			b.WriteString("|" + g.Name + "=")
+			b.WriteString(core.DeepHash(g.Ptr))
+		}
 	}
 	return b.String()
 }
@@ -213,6 +217,12 @@ func c07Run(r *core.Run) {
 	r.Bound("expressions", len(c07Exprs))
 	r.Bound("package_level_variables_hashed", len(verifrt.Globals))
 	bound := 2
+	if len(verifrt.UsesSync) > 0 {
+		// a goroutine parked at a yield while holding a real lock would block the others outside the scheduler's
+		// control: only schedules without preemption are explored (every order of whole calls)
+		bound = 0
+		r.Cap("library uses sync primitives: schedule search limited to non-preemptive schedules")
+	}
 	r.Bound("preemption_bound_quick", bound)
 	for i, sc := range scs {
 		if !r.Mine(i) {
@@ -238,11 +248,13 @@ func c07Run(r *core.Run) {
 			r.Violate(v1)
 			continue
 		}
-		if r.Thorough() && len(sc.Calls) == 2 {
+		if r.Thorough() && len(sc.Calls) == 2 && len(verifrt.UsesSync) == 0 {
 			c07AllStates(r, sc, want)
 		} else {
 			b := bound
-			if r.Thorough() {
+			if len(verifrt.UsesSync) > 0 {
+				b = 0
+			} else if r.Thorough() {
 				b = 3
 			} else if len(x1.Steps) > 150 {
 				// long calls: the number of schedules with two preemptions grows with the square of the yield
